@@ -494,7 +494,45 @@ theorem gdl2_example_no_run_beats_bound (f : E → ℝ) (g : E → E) (L γ : Co
     rw [hγL]; field_simp; ring
   linarith [P1, P2, P3, P4, key]
 
+/-! ## accelerated gradient flow of a convex function (continuous_time_models.accelerated_gradient_flow_convex) -/
+
+theorem agfc_metric_den (v : Nat → E) (φ : Nat → ℝ) (t : Coef) (ht : ((t : ℚ) : ℝ) ≠ 0) :
+    EDict.den v φ (agfcMetric t) =
+      2 * ((t : ℚ) : ℝ) * (φ 1 - φ 0) - 2 * ((t : ℚ) : ℝ) * ⟪v 2, v 1 - v 0⟫ := by
+  unfold agfcMetric agfcXdd
+  rw [EDict.den_add v φ _ _ (PDict.wf_ip _ _), EDict.den_add v φ _ _ (PDict.wf_ip _ _), EDict.den_smul,
+    EDict.den_sub v φ _ _ (nodup_singleE _ _), den_ip, den_ip, PDict.den_smul, PDict.den_smul,
+    PDict.den_add v _ _ (PDict.wf_smul _ _ (nodup_single 3 1)), PDict.den_sub v _ _ (nodup_single 0 1), PDict.den_smul,
+    PDict.den_add v _ _ (PDict.wf_smul _ _ (PDict.wf_sub _ _ (PDict.wf_smul _ _ (nodup_single 3 1)))), PDict.den_smul,
+    PDict.den_smul, PDict.den_sub v _ _ (nodup_single 2 1), PDict.den_smul,
+    denE_single, denE_single, denP_single, denP_single, denP_single, denP_single]
+  simp only [inner_add_left, inner_add_right, inner_sub_left, inner_sub_right, real_inner_smul_left, real_inner_smul_right,
+    real_inner_comm (v 3) (v 2), real_inner_comm (v 1) (v 2), real_inner_comm (v 0) (v 2), real_inner_comm (v 3) (v 1),
+    real_inner_comm (v 3) (v 0)]
+  push_cast
+  field_simp
+  ring
+
+/-- **the Lyapunov function of the accelerated flow does not increase, for the script's own metric**: `f` convex, `t > 0`;
+under every interpretation consistent with `f` (whatever the velocity `ẋ_t`) the script's metric is
+`2t (f(x_t) − f⋆ − ⟨∇f(x_t), x_t − x⋆⟩) ≤ 0`, the value the example states -/
+theorem agfc_example_no_run_beats_bound (f : E → ℝ) (g : E → E) (t : Coef) (ht : 0 < ((t : ℚ) : ℝ))
+    (hconv : ∀ x y, f y ≥ f x + ⟪g x, y - x⟫)
+    (v : Nat → E) (φ : Nat → ℝ) (hg : v 2 = g (v 1)) (h1 : φ 1 = f (v 1)) (h0 : φ 0 = f (v 0)) :
+    ∀ m ∈ (agfc t).metrics, EDict.den v φ m ≤ 0 := by
+  intro m hm
+  have : m = agfcMetric t := by simpa [agfc] using hm
+  subst this
+  rw [agfc_metric_den v φ t ht.ne', h1, h0]
+  have hc := hconv (v 1) (v 0)
+  rw [← hg] at hc
+  have e : ⟪v 2, v 0 - v 1⟫ = -⟪v 2, v 1 - v 0⟫ := by rw [← neg_sub (v 1) (v 0), inner_neg_right]
+  rw [e] at hc
+  nlinarith
+
 end Pepit.C09M
+
+#print axioms Pepit.C09M.agfc_example_no_run_beats_bound
 
 #print axioms Pepit.C09M.gdl2_example_no_run_beats_bound
 
